@@ -46,7 +46,7 @@ type realCase struct {
 
 func (c realCase) withEnv() bool { return strings.HasSuffix(c.API, "-env") }
 func (c realCase) withMessages() bool {
-	return strings.HasPrefix(c.API, "execute") || c.API == "new-execute"
+	return strings.HasPrefix(c.API, "execute") || strings.HasPrefix(c.API, "new-execute")
 }
 
 // expected computes what the child writes to each stream (the reference; the child does the same independently).
@@ -128,11 +128,19 @@ func evalRealX(c realCase) (vs []viol, engineErr string, outcome string) {
 	var runErr error
 	var output string
 	var proc *subprocess.Subprocess
-	if c.API == "new-execute" {
+	if strings.HasPrefix(c.API, "new-execute") {
 		var err error
 		proc, err = subprocess.New(ctx, rec, msgStart, msgSuccess, msgFailure, childPath(), args...)
 		if err != nil {
 			return nil, fmt.Sprintf("subprocess.New failed: %v", err), ""
+		}
+		if c.API == "new-execute-2nd" {
+			// the object has already been through one complete run: what is judged is its second Execute
+			_ = proc.Execute()
+			time.Sleep(300 * time.Millisecond)
+			rec.mu.Lock()
+			rec.events = nil
+			rec.mu.Unlock()
 		}
 	}
 	done := make(chan struct{})
@@ -147,7 +155,7 @@ func evalRealX(c realCase) (vs []viol, engineErr string, outcome string) {
 			output, runErr = subprocess.Output(ctx, rec, childPath(), args...)
 		case "output-env":
 			output, runErr = subprocess.OutputWithEnvironment(ctx, rec, env, childPath(), args...)
-		case "new-execute":
+		case "new-execute", "new-execute-2nd":
 			runErr = proc.Execute()
 		}
 	}()
@@ -356,6 +364,16 @@ func realCases(thorough bool) ([]realCase, realBound) {
 		for _, api := range []string{"execute", "execute-env", "output", "output-env"} {
 			cases = append(cases, realCase{Family: "exit", API: api, Exit: code, Ops: []script.Op{
 				script.Out("Oa\nOb"), script.Err("Ex\n"), script.Out("\n"), script.Env("C18_EXTRA"), script.Env("C18_SECOND"), script.Err("Ey"), script.Exit(code)}})
+		}
+	}
+	// a Subprocess object that has already run once
+	cases = append(cases, realCase{Family: "exit", API: "new-execute-2nd", Exit: 0, Ops: []script.Op{script.Out("Oa\n"), script.Err("Ea\n"), script.Exit(0)}},
+		realCase{Family: "exit", API: "new-execute-2nd", Exit: 3, Ops: []script.Op{script.Out("Oa\n"), script.Exit(3)}})
+	// lines that end with white space, lines of white space only, carriage returns (exact content through Execute and Output)
+	for _, api := range []string{"execute", "output"} {
+		for _, code := range []int{0, 1} {
+			cases = append(cases, realCase{Family: "exit", API: api, Exit: code, Ops: []script.Op{
+				script.Out("Okey: \n"), script.Out("Otab\t\n"), script.Out("Ocrlf\r\n"), script.Out("O   \n"), script.Err("E e \n"), script.Err("E\t\n"), script.Out("Olast "), script.Exit(code)}})
 		}
 	}
 	cases = append(cases, realCase{Family: "exit", API: "new-execute", Exit: 0, Ops: []script.Op{script.Out("Oa\n"), script.Exit(0)}},
